@@ -1,17 +1,9 @@
 import ShootVerif.Drive.Ctor
 import ShootVerif.Model.Opt
 import ShootVerif.Proofs.CtorMain
-import ShootVerif.Model.Alloc
+import ShootVerif.Model.AllocMap
 namespace ShootVerif.Drive
 open ShootVerif.Ctor ShootVerif.Opt
-
-/-- leaves with the pointer embeds on their path: (path, depth, info, under a pointer embed, the pointer-embed prefixes) -/
-def leavesPtrs (path : List String) (ptrs : List (List String)) (d : Nat) :
-    Tree → List (List String × Nat × FInfo × Bool × List (List String))
-  | .nil => []
-  | .field f rest => (path, d, f, !ptrs.isEmpty, ptrs) :: leavesPtrs path ptrs d rest
-  | .embed n _ p _ body rest =>
-    leavesPtrs (path ++ [n]) (if p then ptrs ++ [path ++ [n]] else ptrs) (d + 1) body ++ leavesPtrs path ptrs d rest
 
 /-- (path, depth, info, under a pointer embed) -/
 def leavesPtr (path : List String) (under : Bool) (d : Nat) (t : Tree) : List (List String × Nat × FInfo × Bool) :=
@@ -25,7 +17,7 @@ def showVal (dirty : Bool) : Val → String
 /-- is this leaf the one the selector `t.name` writes (model: not shadowed in the generator's list, not skipped) -/
 def isTarget (t : Tree) (d : Nat) (f : FInfo) : Bool := !f.skip && !genShadow t d f.name
 
-def optRun (t : Tree) (names : List String) (dirty : Bool) (seq : List Nat) (_mirrorPanic : Bool) : String :=
+def optRun (t : Tree) (names : List String) (dirty : Bool) (seq : List Nat) (mirror : Bool) : String :=
   let fs := flatten t
   let defs := defaultList fs
   let optNames := seq.map (fun j => names.getD j "?")
@@ -37,7 +29,10 @@ def optRun (t : Tree) (names : List String) (dirty : Bool) (seq : List Nat) (_mi
     | none => none
     | some h =>
       match ls.find? (fun l => l.2.2.1.name = n && isTarget t l.2.1 l.2.2.1) with
-      | some l => (match Alloc.writeField l.2.2.2.2 h with | .ok h' => some h' | .panic => none)
+      | some l =>
+        -- model side: the chain comes from the generator's own scan (`AllocMap[name]`); spec side: from the struct
+        let chain := if mirror then allocMapOf fs n else l.2.2.2.2
+        (match Alloc.writeField chain h with | .ok h' => some h' | .panic => none)
       | none => some h
   let heap := optNames.foldl step (some [])
   match heap with
